@@ -1415,6 +1415,6 @@ mod tests {
 
 // Verification harnesses (Kani); the sources live outside this repository.
 #[cfg(feature = "verif")]
-mod verif {
+pub(crate) mod verif {
     include!(concat!(env!("VHOST_VERIF_DIR"), "/harness/vu_frontend.rs"));
 }
